@@ -261,6 +261,15 @@ class TermEval:
                 raise Unsupported(f"call on scalar {short(e)}")
             if name == "matmul" and len(args) == 1 and isinstance(args[0], Mat):
                 return recv.matmul(args[0])
+            if name in ("solve", "_solve") and getattr(self, "solve_is_primitive", False):
+                # A.solve(X) = A^-1 X by specification (C04 decides the implementations); A must be an atom (self / self^T)
+                x = args[0] if args else kw.get("right_tensor", kw.get("rhs"))
+                if isinstance(x, Mat) and len(recv.terms) == 1:
+                    (k, v), = recv.terms.items()
+                    if len(k) == 1 and v.key() == Scalar.const(1).key() and not ({"left_tensor"} & set(kw)):
+                        sname, tr = k[0]
+                        return Mat({((sname + "^-1", tr),): Scalar.const(1)}).matmul(x)
+                raise Unsupported(f"solve on a compound receiver {short(e)}")
             if name == "mul" and len(args) == 1:
                 return self._mul(recv, args[0])
             if name == "transpose" and [norm(a) for a in e.args] in (["-1", "-2"], ["-2", "-1"]):
@@ -483,6 +492,8 @@ def run(idx: ProgramIndex, rep: Report, tier: str, selftest: bool = True):
 
     # ---- T4 / T5 -----------------------------------------------------------------------------------
     check_terms(idx, rep, base, first, second)
+    check_solve_triangular(idx, rep, base)
+    check_factorwise_maps(idx, rep)
 
     if selftest:
         from ..selftest import run_fixtures
@@ -563,6 +574,83 @@ def check_torch_function(idx, rep: Report, base: ClassInfo):
 
     analyse(first_body, "_HANDLED_FUNCTIONS", "operator first")
     analyse(second_body, "_HANDLED_SECOND_ARG_FUNCTIONS", "operator second")
+
+
+def check_solve_triangular(idx, rep: Report, base: ClassInfo):
+    """T6: solve_triangular(A, R, left=...) = A^-1 R for left=True and R A^-1 for left=False (or raises), evaluated in
+    the free algebra with A.solve(X) = A^-1 X as a primitive."""
+    rep.rule("C15.T6", "solve_triangular returns A^-1 R (left) / R A^-1 (right) or raises, for each value of `left`", floor=2)
+    S, O = Mat.sym("self"), Mat.sym("other")
+    Sinv = Mat({(("self^-1", False),): Scalar.const(1)})
+    for c in idx.operator_classes():
+        fn = c.methods.get("solve_triangular")
+        if fn is None or "left" not in fn.params():
+            continue
+        rhs_name = fn.params()[1]
+        for left in (True, False):
+            who = f"{c.name}.solve_triangular"
+            case = {"method": who, "left": left}
+            te = TermEval(idx, base, c)
+            te.solve_is_primitive = True
+            env: Dict[str, object] = {"self": S, rhs_name: O}
+            diag = idx.classes.get("linear_operator.operators.diag_linear_operator.DiagLinearOperator")
+            symmetric = ("self", "self^-1") if (diag is not None and diag in c.mro) else ()  # a diagonal matrix is its own transpose
+            assume = {"left": left, "not left": not left, "unitriangular": False, "not unitriangular": True,
+                      "upper != self.upper": False, "upper == self.upper": True, "#vectors": symmetric}
+            try:
+                got = te.method(fn, env, assume)
+            except Unsupported as e:
+                rep.note(f"{who} (left={left}): not evaluable by term rewriting ({e})")
+                continue
+            want = Sinv.matmul(O) if left else O.matmul(Sinv)
+            if got is None:
+                # every path raises for this flag value: allowed (loud)
+                rep.ok("C15.T6", {**case, "value": "raises / no value"})
+            elif isinstance(got, Mat) and got.key() == want.key():
+                rep.ok("C15.T6", {**case, "value": got.show()})
+            elif isinstance(got, Mat):
+                rep.bad("C15.T6", Finding(PROP, "C15.T6", who, f"left={left}: {got.show()}",
+                                          f"{who}(R, left={left}) evaluates to `{got.show()}` but torch.linalg.solve_triangular "
+                                          f"computes `{want.show()}`", fn.loc()))
+
+
+# elementwise functions f with f(x * y) = f(x) * f(y): only these may be applied factor by factor to a Kronecker product
+# of diagonals, because the diagonal of a (x) b consists of the products a_i * b_j
+MULTIPLICATIVE = {"abs", "sqrt", "inverse", "reciprocal", "pow", "square", "conj", "sign", "_transpose_nonbatch", "mT", "t",
+                  "transpose", "detach", "clone", "to", "type", "double", "float", "half", "cpu", "cuda", "requires_grad_",
+                  "_expand_batch", "_unsqueeze_batch", "_permute_batch", "_getitem", "evaluate_kernel", "to_dense", "_diagonal",
+                  "inv", "rsqrt"}
+ELEMENTWISE_UNARY = {"exp", "log", "abs", "sqrt", "sin", "cos", "tanh", "sigmoid", "expm1", "log1p", "neg", "reciprocal", "rsqrt",
+                     "square", "pow", "sign", "inverse"}
+
+
+def check_factorwise_maps(idx, rep: Report):
+    """T7: a unary elementwise function applied factor by factor to a Kronecker product must be multiplicative."""
+    rep.rule("C15.T7", "factor-wise unary maps on Kronecker-structured operators are multiplicative functions", floor=3)
+    for c in idx.operator_classes():
+        if "Kronecker" not in c.name:
+            continue
+        for mname, fn in c.methods.items():
+            if mname not in ELEMENTWISE_UNARY:
+                continue
+            for n in walk_body(fn):
+                if not isinstance(n, (ast.ListComp, ast.GeneratorExp)):
+                    continue
+                g = n.generators[0]
+                if not (isinstance(g.iter, ast.Attribute) and g.iter.attr == "linear_ops" and isinstance(g.target, ast.Name)):
+                    continue
+                e = n.elt
+                if isinstance(e, ast.Call) and isinstance(e.func, ast.Attribute) and isinstance(e.func.value, ast.Name) \
+                        and e.func.value.id == g.target.id:
+                    f_ = e.func.attr
+                    sample = {"class": c.name, "method": mname, "applied_to_each_factor": f_}
+                    if f_ in MULTIPLICATIVE:
+                        rep.ok("C15.T7", sample)
+                    else:
+                        rep.bad("C15.T7", Finding(PROP, "C15.T7", f"{c.name}.{mname}", norm(n),
+                                                  f"{c.name}.{mname} applies `{f_}` to every Kronecker factor, but {f_}(a (x) b) is "
+                                                  f"{f_}(a) (x) {f_}(b) only for multiplicative functions (abs, sqrt, inverse, pow ...): "
+                                                  f"torch.{mname}(op) disagrees with torch.{mname} of the dense matrix", fn.loc(n)), sample)
 
 
 def check_terms(idx, rep: Report, base: ClassInfo, first, second):
